@@ -2,7 +2,7 @@
 # usage: try_mutant.sh <patch.diff> <ID> [tier] [extra args]  — apply to /repo, run the check, always revert.
 P="$1"; ID="$2"; TIER="${3:-quick}"; shift 3 2>/dev/null
 if ! git -C /repo diff --quiet; then echo "repo dirty"; exit 3; fi
-git -C /repo apply "$P" || { git -C /repo apply -3 "$P" || { echo "patch does not apply"; exit 3; }; }
+git -C /repo apply "$P" 2>/dev/null || { echo "patch does not apply cleanly"; git -C /repo reset -q --hard HEAD; exit 3; }
 /verif/bin/check "$ID" "$TIER" -evidence /tmp/mutant-evidence.json "$@" > /tmp/mutant.log 2>&1
 rc=$?
 git -C /repo checkout -- . ; git -C /repo reset -q
